@@ -332,6 +332,11 @@ func checkWire(c *core.Check, which string) {
 	if err == nil && pr.Error == "" && pr.InvViolated == "" {
 		c.AddTLC(pr)
 	}
+	if which == "c09" {
+		if !clientWalk(c) {
+			return
+		}
+	}
 	rng := rand.New(rand.NewSource(c.Seed))
 	nOps, perPkg, nSeeds := 120, 20, 5
 	if thorough {
